@@ -1233,6 +1233,12 @@ func (fb *FB) prove2(t Lin, facts []Lin, depth, split int) bool {
 				continue
 			}
 			all := true
+			if fb.loopPhi(phi) {
+				if fb.proveByInduction(t, phi, depth, split) {
+					return true
+				}
+				continue
+			}
 			for i, e := range phi.Edges {
 				le := fb.lin(e)
 				if _, self := le.T[k]; self {
@@ -1277,6 +1283,73 @@ func (fb *FB) prove2(t Lin, facts []Lin, depth, split int) bool {
 		}
 	}
 	return false
+}
+
+// loopPhi: one of the phi's edges is phi + d.
+func (fb *FB) loopPhi(phi *ssa.Phi) bool {
+	for _, e := range phi.Edges {
+		if _, self := fb.lin(e).T[ssa.Value(phi)]; self {
+			return true
+		}
+	}
+	return false
+}
+
+// loopInvariantSym: the symbol is defined before the loop headed by hdr (its defining block strictly dominates hdr).
+func loopInvariantSym(k interface{}, hdr *ssa.BasicBlock) bool {
+	var v ssa.Value
+	switch x := k.(type) {
+	case lenKey:
+		v = x.v
+	case capKey:
+		v = x.v
+	case ssa.Value:
+		v = x
+	default:
+		return false
+	}
+	switch x := v.(type) {
+	case *ssa.Parameter, *ssa.Const, *ssa.FreeVar, *ssa.Global, *ssa.Function:
+		return true
+	case ssa.Instruction:
+		b := x.Block()
+		return b != nil && b != hdr && b.Dominates(hdr)
+	}
+	return false
+}
+
+// proveByInduction shows t >= 0 for a goal that mentions the loop variable phi (every other symbol being invariant in phi's
+// loop): t holds for each entry value under the facts of the entry edge, and each step phi -> phi+d preserves it under the facts
+// of the back edge plus the hypothesis t >= 0. Facts of the use site are deliberately not used (they may describe the last iteration only).
+func (fb *FB) proveByInduction(t Lin, phi *ssa.Phi, depth, split int) bool {
+	k := ssa.Value(phi)
+	hdr := phi.Block()
+	for sym := range t.T {
+		if sym == interface{}(k) {
+			continue
+		}
+		if !loopInvariantSym(sym, hdr) {
+			return false
+		}
+	}
+	coef := t.T[k]
+	for i, e := range phi.Edges {
+		le := fb.lin(e)
+		ef := fb.edgeFacts(hdr.Preds[i], hdr)
+		ti := t.clone()
+		delete(ti.T, k)
+		ti = ti.add(le, coef)
+		if c, self := le.T[k]; self {
+			if c != 1 {
+				return false
+			}
+			ef = append(ef, t)
+		}
+		if !fb.prove2(ti, ef, depth, split-1) {
+			return false
+		}
+	}
+	return true
 }
 
 // edgeFacts: facts known when control flows along pred -> succ.
